@@ -293,8 +293,11 @@ pub fn replay_session(
     let mut text = String::new();
     let mut all: Vec<Violation> = Vec::new();
     let mut h = crate::prng::Fnv::default();
+    // as in a shard: the verdict reference lives in another process, which
+    // sees the same sequence of requests as the shard's did
+    let mut server = Some(crate::oracle::RefServer::start()?);
     for (i, p) in session.plans.iter().enumerate() {
-        let po = run_plan(p, &mut gl, &mut stats, watchdog_secs, false, None)?;
+        let po = run_plan(p, &mut gl, &mut stats, watchdog_secs, false, server.as_mut())?;
         if po.res.blocked {
             text.push_str(&format!("UNDECIDED (blocked): {}\n", po.res.blocked_what));
         }
